@@ -197,9 +197,10 @@ def generate(seed, tier, index, pid=ID, spec_p=None, p_overlap=0.06, script_p=No
                                     nr_delta=(rs.sub(j, "sibd").randint(1, 3) if pid != ID else 0))
             kind = kinds[0] if rs.sub(j, "sibk").chance(0.8) else kind
         e = C.make_script_entry(rs.sub(j), ru.sub(j), rk.sub(j), kind, spec_p, script_p, rich=rs.chance(0.3), spec=spec)
-        if kind == "tauleap" and spec is None and not overlap and rs.sub(j, "giant").chance(0.05):
+        if kind == "tauleap" and spec is None and not overlap and rs.sub(j, "giant").chance(0.07):
             # a step in which one channel fires billions of times (beyond the int range half of the time): every call returns
-            e = C.giant_entry(rs.sub(j, "g"), rk.sub(j, "g"))
+            e = C.giant_entry(rs.sub(j, "g"), rk.sub(j, "g")) if rs.sub(j, "gb").chance(0.5) else \
+                C.blowup_entry(rs.sub(j, "g"), rk.sub(j, "g"))
         if overlap and same_dims_spec is None:
             same_dims_spec = e["phys"]["spec"]
         scripts.append(e)
